@@ -78,7 +78,7 @@ def scenarios(quick: bool) -> List[Tuple[Scenario, str]]:
 
 def run(ctx: Ctx) -> None:
     quick = ctx.tier == "quick"
-    kinds = [("before", "oserror"), ("async", "kbd")] + ([] if quick else [("async", "sysexit")])
+    kinds = [("before", "oserror"), ("async", "kbd"), ("async", "sysexit")]
     try:
         c01.run_mc(ctx, mc_configs(quick), INV)
         from concurrent.futures import ThreadPoolExecutor
@@ -86,7 +86,9 @@ def run(ctx: Ctx) -> None:
         batches = []
         for scn, victim in scenarios(quick):
             steps = l1.solo_steps(scn)
-            kk = kinds + ([("after", "oserror")] if scn.backend != "local" else [])
+            kk = kinds + ([("after", "oserror"), ("before", "clienterror")] if scn.backend != "local" else [])
+            if quick and scn.name not in ("f-append-ctx", "f-append-s3cas"):
+                kk = [k_ for k_ in kk if k_[1] != "sysexit"]        # SystemExit everywhere only in the thorough tier
             jobs = [("list", s_) for s_ in l1.fault_schedules(scn, steps, victim, kk, stride=1)]
             if len(scn.actors) > 1:
                 # the victim is paused/failed while the others run first, or after
